@@ -13,10 +13,12 @@ TInit == /\ tid \in 1..Len(Traces) /\ l = 1 /\ c = Traces[tid].c
          /\ lcount = 0 /\ ph = "init" /\ ocache = <<>> /\ hist = <<>> /\ log = <<>> /\ opened = FALSE
 Same(e, x) == e.op = x.op /\ e.k = x.k /\ e.ids = x.ids
 Step == /\ l <= Len(Ev) /\ l' = l + 1 /\ tid' = tid
-        /\ (ReadClosed \/ Open \/ ReadFixed \/ ReadOvInit \/ ReadOvRun \/ ReadOvDead \/ ReadOvBroken \/ Rewind \/ RewindNoRec \/ Data)
+        /\ (ReadClosed \/ Open \/ Close \/ ReadFixed \/ ReadOvInit \/ ReadOvRun \/ ReadOvDead \/ ReadOvBroken \/ Rewind \/ RewindNoRec \/ Data)
         /\ Same(Ev[l], log'[Len(log')])
 TSpec == TInit /\ [][Step]_tvars
-Mon == /\ (~C10 => TLCSet(100000 + tid, 1)) /\ (~(C19 /\ C19Replay) => TLCSet(200000 + tid, 1)) /\ TLCSet(tid, l)
+\* very long histories (thousands of reads) are judged by acceptance alone: the monitors re-evaluate the whole history in every state
+Mon == /\ Traces[tid].nomon \/ ((~C10 => TLCSet(100000 + tid, 1)) /\ (~(C19 /\ C19Replay) => TLCSet(200000 + tid, 1)))
+       /\ TLCSet(tid, l)
 ASSUME \A t \in 1..Len(Traces) : \A b \in {0, 100000, 200000} : TLCSet(b + t, 0)
 Post == \A t \in 1..Len(Traces) :
    PrintT(ToJson(<<"TRACE", t, TLCGet(t), Len(Traces[t].ev) + 1, TLCGet(100000 + t), TLCGet(200000 + t)>>))
